@@ -208,7 +208,7 @@ fn run_c15<T>(c: &Case) -> Chk<Pass> where T: Sc + yui::EucRing + Rounding, for<
     }
 }
 
-fn run_case(c: &Case) -> Chk<Pass> { crate::dispatch_euc!(c.ty, run_c15(c)) }
+fn run_case(c: &Case) -> Chk<Pass> { if !Ty::EUCLIDEAN.contains(&c.ty) { return discard("type-outside-domain") } crate::dispatch_euc!(c.ty, run_c15(c)) }
 
 // ---------------------------------------------------------------------------
 
